@@ -76,25 +76,27 @@ type vfC17Rig struct {
 	sc   *vfScope
 	ip   string
 
-	mu        sync.Mutex
-	free      bool
-	waiters   []*vfC17Waiter
-	pendName  string
-	pendConn  int
-	conns     map[int]*vfC17RConn
-	hsConns   []*vfMemConn
-	hsFail    map[int]bool
-	dead      map[int]bool
-	killedPre map[int]bool // killed while not (yet) in the pool
-	nextFree  int
-	failMode  int
-	closeErr  int32 // != 0: the sockets' Close() reports an error
-	lockDead  int32 // != 0: pool.mu could not be taken for a long time (somebody deadlocked holding it)
-	lockSig   string
-	fillStuck int32 // != 0: pool.filling stayed true with no fill in progress
-	inDial    int32
-	lastEv    int64 // unix nano of the last hook / dial activity
-	calls     sync.WaitGroup
+	mu         sync.Mutex
+	free       bool
+	waiters    []*vfC17Waiter
+	pendName   string
+	pendConn   int
+	conns      map[int]*vfC17RConn
+	hsConns    []*vfMemConn
+	hsFail     map[int]bool
+	dead       map[int]bool
+	killedPre  map[int]bool // killed while not (yet) in the pool
+	nextFree   int
+	failMode   int
+	closeErr   int32 // != 0: the sockets' Close() reports an error
+	lockDead   int32 // != 0: pool.mu could not be taken for a long time (somebody deadlocked holding it)
+	lockSig    string
+	lockUnsure int32 // != 0: pool.mu could not be taken up to the hard cap, but nobody is provably stuck on it
+	closing    int32 // pool.Close calls in flight
+	fillStuck  int32 // != 0: pool.filling stayed true with no fill in progress
+	inDial     int32
+	lastEv     int64 // unix nano of the last hook / dial activity
+	calls      sync.WaitGroup
 }
 
 // ---------------------------------------------------------------- dialer
@@ -228,22 +230,75 @@ func (r *vfC17Rig) rlock() bool {
 	if atomic.LoadInt32(&r.lockDead) != 0 {
 		return false
 	}
-	deadline := time.Now().Add(1500 * time.Millisecond)
-	for !r.pool.mu.TryRLock() {
-		if time.Now().After(deadline) {
+	if atomic.LoadInt32(&r.lockUnsure) != 0 {
+		return false
+	}
+	// early exit as soon as the lock is free; "held for good" only after the deadline AND with the goroutine
+	// that sits in HandleError -> Lock below a pool method blocked in the very same frames over several samples
+	start := time.Now()
+	for i := 0; ; i++ {
+		if r.pool.mu.TryRLock() {
+			return true
+		}
+		if time.Since(start) > vfC17DeadlineD() {
+			break
+		}
+		if i < 1000 {
+			time.Sleep(200 * time.Microsecond)
+		} else {
+			time.Sleep(5 * time.Millisecond)
+		}
+	}
+	hard := start.Add(vfC17HardCapD())
+	for time.Now().Before(hard) {
+		stable, first, sig := true, "", "unknown"
+		for k := 0; k < vfC17QuietSamples; k++ {
+			if r.pool.mu.TryRLock() {
+				return true
+			}
+			dump := vfGoroutineDump()
+			sig = vfC17LockSig(dump, r.pool)
+			g := vfC17MinutesRe.ReplaceAllString(vfC17LockHolder(dump), "")
+			if sig == "unknown" || g == "" || (k > 0 && g != first) {
+				stable = false
+				break
+			}
+			first = g
+			time.Sleep(vfC17SampleGap)
+		}
+		if stable {
 			if atomic.CompareAndSwapInt32(&r.lockDead, 0, 1) {
-				r.lockSig = vfC17LockSig(vfGoroutineDump(), r.pool)
+				r.lockSig = sig
+				atomic.AddInt32(&vfC17WallVerdicts, 1)
 			}
 			return false
 		}
-		time.Sleep(200 * time.Microsecond)
+		time.Sleep(vfC17SampleGap)
 	}
-	return true
+	if r.pool.mu.TryRLock() {
+		return true
+	}
+	atomic.StoreInt32(&r.lockUnsure, 1) // no verdict: the run ends inconclusive
+	return false
 }
+
+// wall-clock verdicts taken by this test process; after a few of them the remaining schedules are skipped (each
+// costs the generous deadline and the verdict stands already)
+var vfC17WallVerdicts int32
 
 // vfC17LockSig names the goroutine that waits for pool.mu while it already holds it: a pool method that
 // re-enters HandleError through Conn.Close.
 func vfC17LockSig(dump string, pool *hostConnPool) string {
+	sig, _ := vfC17LockSigHolder(dump)
+	return sig
+}
+
+func vfC17LockHolder(dump string) string {
+	_, g := vfC17LockSigHolder(dump)
+	return g
+}
+
+func vfC17LockSigHolder(dump string) (string, string) {
 	for _, g := range strings.Split(dump, "\n\n") {
 		// frames only: a fill() goroutine started by HandleError names it in its "created by" line
 		if i := strings.Index(g, "\ncreated by "); i >= 0 {
@@ -256,12 +311,12 @@ func vfC17LockSig(dump string, pool *hostConnPool) string {
 		// connection (Session.dialWithoutObserver) is only a victim waiting for the lock
 		switch {
 		case strings.Contains(g, "hostConnPool).Close("):
-			return "Close-reenters-HandleError"
+			return "Close-reenters-HandleError", g
 		case strings.Contains(g, "hostConnPool).connect(") && !strings.Contains(g, "dialWithoutObserver"):
-			return "connect-late-arrival-reenters-HandleError"
+			return "connect-late-arrival-reenters-HandleError", g
 		}
 	}
-	return "unknown"
+	return "unknown", ""
 }
 
 func (r *vfC17Rig) proj() vfC17Proj {
@@ -316,7 +371,7 @@ func (r *vfC17Rig) await(exp vfC17Proj, d time.Duration) (vfC17Proj, bool) {
 		// (a fill that is still to end - the model says filling = FALSE, the pool still says TRUE - is
 		// waited for up to the deadline: fillingStopped sleeps before it takes the lock)
 		if i > 50 && !(got.Filling && !exp.Filling) && atomic.LoadInt32(&r.inDial) == r.parkedDials() &&
-			time.Since(time.Unix(0, atomic.LoadInt64(&r.lastEv))) > 1200*time.Millisecond {
+			time.Since(time.Unix(0, atomic.LoadInt64(&r.lastEv))) > 2500*time.Millisecond {
 			return got, false
 		}
 		if i < 50 {
@@ -396,7 +451,8 @@ func (r *vfC17Rig) exec(st vfC17Step) error {
 		rc.nc.Close()
 	case "close":
 		r.calls.Add(1)
-		go func() { defer r.calls.Done(); r.pool.Close() }()
+		atomic.AddInt32(&r.closing, 1)
+		go func() { defer r.calls.Done(); defer atomic.AddInt32(&r.closing, -1); r.pool.Close() }()
 	default:
 		return fmt.Errorf("unknown command %q", st.Cmd)
 	}
@@ -414,7 +470,12 @@ func (r *vfC17Rig) runFree(quiet time.Duration, max time.Duration) bool {
 	for _, w := range ws {
 		w.rel <- 1
 	}
-	deadline := time.Now().Add(max)
+	if atomic.LoadInt32(&r.fillStuck) != 0 {
+		return false
+	}
+	start := time.Now()
+	deadline := start.Add(vfC17HardCapD())
+	_ = max
 	for {
 		if !r.rlock() {
 			return false
@@ -425,10 +486,11 @@ func (r *vfC17Rig) runFree(quiet time.Duration, max time.Duration) bool {
 		if !filling && atomic.LoadInt32(&r.inDial) == 0 && idle > quiet {
 			return true
 		}
-		// nobody dials, nothing has moved for ten times the longest pause of a fill (fillingStopped sleeps at
-		// most 131 ms), yet the pool still says "filling": the flag will never be reset
-		if filling && atomic.LoadInt32(&r.inDial) == 0 && idle > 1500*time.Millisecond {
+		// after the generous deadline: nobody dials and no hook of this pool has fired for 3 s (fillingStopped sleeps
+		// at most 131 ms), yet the pool still says "filling": the flag will never be reset
+		if filling && atomic.LoadInt32(&r.inDial) == 0 && time.Since(start) > vfC17DeadlineD()+3*time.Second && idle > 3*time.Second {
 			atomic.StoreInt32(&r.fillStuck, 1)
+			atomic.AddInt32(&vfC17WallVerdicts, 1)
 			return false
 		}
 		if time.Now().After(deadline) {
@@ -453,28 +515,49 @@ type vfC17Rec struct {
 	Q      string `json:"q"`
 }
 
-func (r *vfC17Rig) snapshot(ev string, settle bool) vfC17Rec {
-	if settle {
-		// a killed connection's error callback runs on the connection's own goroutine: give it
-		// time (bounded) before declaring that a dead connection stayed in the pool
-		deadline := time.Now().Add(500 * time.Millisecond)
-		for time.Now().Before(deadline) {
-			p := r.proj()
-			bad := false
-			r.mu.Lock()
-			for _, id := range p.Conns {
-				if r.dead[id] {
-					bad = true
-				}
-			}
-			r.mu.Unlock()
-			if !bad {
-				break
-			}
-			time.Sleep(5 * time.Millisecond)
+// stableProj reads the projection until two consecutive reads agree with no hook / dial activity in between, no
+// fill, no dial and no Close in progress: the invariants are judged on a consistent instant only.
+func (r *vfC17Rig) stableProj() vfC17Proj {
+	deadline := time.Now().Add(vfC17DeadlineD())
+	for {
+		e0 := atomic.LoadInt64(&r.lastEv)
+		a := r.proj()
+		time.Sleep(3 * time.Millisecond)
+		b := r.proj()
+		if a.String() == b.String() && atomic.LoadInt64(&r.lastEv) == e0 && !b.Filling &&
+			atomic.LoadInt32(&r.inDial) == 0 && atomic.LoadInt32(&r.closing) == 0 {
+			return b
+		}
+		if atomic.LoadInt32(&r.lockDead) != 0 || atomic.LoadInt32(&r.lockUnsure) != 0 || atomic.LoadInt32(&r.fillStuck) != 0 {
+			return b
+		}
+		if time.Now().After(deadline) {
+			atomic.StoreInt32(&r.lockUnsure, 1) // never consistent: no verdict from this schedule
+			return b
 		}
 	}
-	p := r.proj()
+}
+
+func (r *vfC17Rig) snapshot(ev string, settle bool) vfC17Rec {
+	if settle {
+		// a killed connection's error callback runs on the connection's own goroutine: "a dead connection stayed
+		// in the pool" is declared only after the deadline with no hook / dial activity of this pool any more
+		o := vfC17Settle(func() bool {
+			p := r.proj()
+			r.mu.Lock()
+			defer r.mu.Unlock()
+			for _, id := range p.Conns {
+				if r.dead[id] {
+					return false
+				}
+			}
+			return true
+		}, func() int64 { return atomic.LoadInt64(&r.lastEv) }, func() bool { return atomic.LoadInt32(&r.inDial) > 0 })
+		if o == vfC17Unsure {
+			atomic.StoreInt32(&r.lockUnsure, 1)
+		}
+	}
+	p := r.stableProj()
 	rec := vfC17Rec{Sched: r.n, Ev: ev, Size: r.size, Closed: p.Closed, Conns: p.Conns, Open: p.Open, Dead: []int{}}
 	r.mu.Lock()
 	for id := range r.dead {
@@ -548,7 +631,7 @@ func vfC17RunSchedule(sess *Session, d *vfC17Dialer, cl *vfCluster, sch *vfC17Sc
 			divergence = fmt.Sprintf("step %d (%s %s%d): %v; real %s", k+1, st.Cmd, st.F, st.C, e, r.proj())
 			break
 		}
-		got, ok := r.await(st.Exp, 4*time.Second)
+		got, ok := r.await(st.Exp, vfC17DeadlineD())
 		if !ok {
 			divergence = fmt.Sprintf("step %d (%s %s%d): real %s, model %s", k+1, st.Cmd, st.F, st.C, got, st.Exp)
 			break
@@ -567,19 +650,25 @@ func vfC17RunSchedule(sess *Session, d *vfC17Dialer, cl *vfCluster, sch *vfC17Sc
 	var end, fin vfC17Rec
 	if atomic.LoadInt32(&r.lockDead) == 0 {
 		end = r.snapshot("h_end", true)
-		ok, _ := vfWithin(3*time.Second, r.pool.Close)
-		if !ok {
-			r.rlock() // classifies the hang when it is a lock held for good
+		atomic.AddInt32(&r.closing, 1)
+		oc, _ := vfC17HungFn(r.pool.Close, nil)
+		atomic.AddInt32(&r.closing, -1)
+		if oc != vfC17Good {
+			if r.rlock() { // classifies the hang when it is a lock held for good
+				r.pool.mu.RUnlock()
+			}
 			if atomic.LoadInt32(&r.lockDead) == 0 {
-				herr = fmt.Errorf("schedule %d: pool.Close did not return", sch.N)
+				herr = fmt.Errorf("schedule %d: pool.Close did not return (%s)", sch.N, oc)
 			}
 		}
 	}
 	if atomic.LoadInt32(&r.lockDead) == 0 {
 		r.runFree(quiet, 10*time.Second)
-		okc, _ := vfWithin(10*time.Second, r.calls.Wait)
-		if !okc && herr == nil && atomic.LoadInt32(&r.lockDead) == 0 {
-			herr = fmt.Errorf("schedule %d: fill()/Close() callers did not return", sch.N)
+		if atomic.LoadInt32(&r.fillStuck) == 0 {
+			oc, _ := vfC17HungFn(r.calls.Wait, nil)
+			if oc != vfC17Good && herr == nil && atomic.LoadInt32(&r.lockDead) == 0 {
+				herr = fmt.Errorf("schedule %d: fill()/Close() callers did not return (%s)", sch.N, oc)
+			}
 		}
 	}
 	if atomic.LoadInt32(&r.lockDead) == 0 {
@@ -591,6 +680,9 @@ func vfC17RunSchedule(sess *Session, d *vfC17Dialer, cl *vfCluster, sch *vfC17Sc
 		dead := vfC17Rec{Sched: sch.N, Ev: "h_lock_dead", Size: sch.Size, Conns: []int{}, Open: []int{}, Dead: []int{}, Q: r.lockSig}
 		end, fin = dead, dead
 		fin.Ev = "h_skip"
+	}
+	if atomic.LoadInt32(&r.lockUnsure) != 0 && herr == nil && atomic.LoadInt32(&r.lockDead) == 0 {
+		herr = fmt.Errorf("schedule %d: an observation could not be settled before the hard cap (no verdict)", sch.N)
 	}
 	recs = append(recs, vfC17Rec{Sched: sch.N, Ev: "init", Size: sch.Size, Conns: []int{}, Open: []int{}, Dead: []int{}})
 	for _, e := range r.sc.tr.Events() {
@@ -665,9 +757,9 @@ func TestVfC17PoolReplay(t *testing.T) {
 	}
 	defer out.Close()
 	type summary struct {
-		Schedules, Steps, Diverged, Errors int
-		FirstDivergence, FirstError        string
-		DivergedScheds                     []int
+		Schedules, Steps, Diverged, Errors, Skipped int
+		FirstDivergence, FirstError                 string
+		DivergedScheds                              []int
 	}
 	sum := summary{DivergedScheds: []int{}}
 	var mu sync.Mutex
@@ -680,6 +772,12 @@ func TestVfC17PoolReplay(t *testing.T) {
 		go func(sch *vfC17Schedule) {
 			defer wg.Done()
 			defer func() { <-sem }()
+			if atomic.LoadInt32(&vfC17WallVerdicts) >= 4 {
+				mu.Lock()
+				sum.Skipped++
+				mu.Unlock()
+				return
+			}
 			recs, div, herr := vfC17RunSchedule(sess, d, cl, sch, sch.N%2)
 			mu.Lock()
 			defer mu.Unlock()
